@@ -38,8 +38,8 @@ Definition cb_local (lvl : nat) (t : Z) (c : put_cb) : Prop :=
 
 Lemma cb_local_child l tc t c : cb_local l tc c -> t <= tc -> tc + pow10 l <= t + pow10 (S l) -> cb_local (S l) t c.
 Proof.
-  intros [H1 H2] H3 H4. split; [eapply under_child; eauto|].
-  eapply Forall_impl; [|exact H2]. intros a Ha. eapply under_child; eauto.
+  intros [H1 H2] H3 H4. split; [exact (under_child _ l tc t H1 H3 H4)|].
+  eapply Forall_impl; [|exact H2]. intros a Ha. exact (under_child _ l tc t Ha H3 H4).
 Qed.
 
 Lemma apply_cb_other beta E c k : pc_key c <> k -> apply_cb beta E c k = E k.
@@ -97,3 +97,445 @@ Proof.
     specialize (IH c Hwc). rewrite Forall_forall in IH. specialize (IH a Ha).
     eapply under_child; [exact IH|lia|]. rewrite Hlen in Hb2. rewrite pow10_S. lia.
 Qed.
+
+(* the children list after the "maybe create" loop *)
+Definition ch1_of (l : nat) (t a b : Z) (ch : list (option snode)) : list (option snode) :=
+  if creates (relationship t (t + pow10 (S l)) a b) then fill_children l (trunc_to (S l) t) a b 0 ch else ch.
+
+Lemma ch1_slots l t a b ch : t mod pow10 (S l) = 0 -> slots (wf l) (pow10 l) t ch ->
+  slots (wf l) (pow10 l) t (ch1_of l t a b ch) /\ length (ch1_of l t a b ch) = length ch.
+Proof.
+  intros Hm Hs. unfold ch1_of. destruct (creates _); [|auto].
+  rewrite fill_children_length. split; [|reflexivity].
+  rewrite (trunc_to_aligned _ _ Hm).
+  replace t with (t + 0 * pow10 l) at 1 by lia. replace t with (t + 0 * pow10 l) at 3 by lia.
+  apply fill_children_slots; [apply mod_pow10_S; exact Hm|].
+  replace (t + 0 * pow10 l) with t by lia. exact Hs.
+Qed.
+
+Lemma put_node_S l a b smp t p s w ch :
+  s_put_node (S l) a b smp (SNode t p s w ch) =
+  let r := relationship t (t + pow10 (S l)) a b in
+  if is_outside r then (SNode t p s w ch, [])
+  else
+    let ch1 := ch1_of l t a b ch in
+    let m := ov t (t + pow10 (S l)) a b in
+    let fire := covers r || (1 <? count_some ch1)%nat || p in
+    let addons := if fire && negb p then find_addons (S l) (SNode t p s w ch1) else [] in
+    let own := if fire
+               then [{| pc_lvl := S l; pc_t := t; pc_m := m; pc_d := b - a; pc_addons := addons |}]
+               else [] in
+    let rs := map (put_child l a b smp) ch1 in
+    (SNode t (p || fire) (s + samples_incr smp m (b - a))%N (w + 1)%N (map fst rs), own ++ concat (map snd rs)).
+Proof. reflexivity. Qed.
+
+Definition child_cbs (l : nat) (a b : Z) (smp : N) (ch : list (option snode)) : list put_cb :=
+  concat (map snd (map (put_child l a b smp) ch)).
+
+Lemma child_cbs_cons l a b smp o ch :
+  child_cbs l a b smp (o :: ch) = snd (put_child l a b smp o) ++ child_cbs l a b smp ch.
+Proof. reflexivity. Qed.
+
+Lemma put_local : forall lvl a b smp n, wf lvl n ->
+  Forall (cb_local lvl (sn_time n)) (snd (s_put_node lvl a b smp n)).
+Proof.
+  induction lvl as [|l IH]; intros a b smp [t p s w ch] Hwf; cbn [sn_time].
+  - rewrite put_node_unfold_0. cbv zeta. destruct (is_outside _); cbn [snd]; [constructor|].
+    destruct (covers _ || _ || p); [|constructor]. constructor; [|constructor].
+    split; [apply under_self|]. cbn [pc_addons].
+    destruct (true && negb p); [|constructor].
+    exact (find_addons_local 0 (SNode t p s w ch) Hwf).
+  - rewrite put_node_S. cbv zeta. destruct (is_outside _); cbn [snd]; [constructor|].
+    destruct Hwf as [Hm [Hlen Hs]].
+    destruct (ch1_slots l t a b ch Hm Hs) as [Hs1 Hlen1]. rewrite Hlen in Hlen1.
+    apply Forall_app. split.
+    + destruct (covers _ || _ || p); [|constructor]. constructor; [|constructor].
+      split; [apply under_self|]. cbn [pc_addons].
+      destruct (true && negb p); [|constructor].
+      refine (find_addons_local (S l) (SNode t p s w (ch1_of l t a b ch)) _).
+      cbn [wf]. auto.
+    + fold (child_cbs l a b smp (ch1_of l t a b ch)).
+      apply Forall_forall. intros c Hc. unfold child_cbs in Hc. apply in_concat in Hc.
+      destruct Hc as [cbs [Hcbs Hc]]. rewrite map_map in Hcbs. apply in_map_iff in Hcbs.
+      destruct Hcbs as [o [Ho Hin]]. subst cbs. destruct o as [c0|]; [|destruct Hc].
+      pose proof (slots_In _ _ _ _ _ Hs1 Hin) as Hw0.
+      pose proof (slots_bounds _ _ (pow10_pos l) _ _ _ Hs1 Hin) as [Hb1 Hb2].
+      specialize (IH a b smp c0 Hw0). cbn [put_child] in Hc.
+      destruct (s_put_node l a b smp c0) as [c' cbs']. cbn [snd] in *.
+      rewrite Forall_forall in IH. specialize (IH c Hc).
+      eapply cb_local_child; [exact IH|lia|]. rewrite Hlen1 in Hb2. rewrite pow10_S. lia.
+Qed.
+
+(* ---------- the effect of the callbacks of a list of sibling subtrees, slot by slot ---------- *)
+Section Children.
+  Variables (l : nat) (a b : Z) (smp : N) (beta : Z).
+  Let w := pow10 l.
+  Definition cbs_of (c : snode) : list put_cb := snd (s_put_node l a b smp c).
+
+  Fixpoint pslots (E E' : store) (t0 : Z) (ch : list (option snode)) : Prop :=
+    match ch with
+    | [] => True
+    | o :: ch' =>
+        (forall k, under k l t0 ->
+                   E' k = match o with Some c => apply_cbs beta E (cbs_of c) k | None => E k end) /\
+        pslots E E' (t0 + pow10 l) ch'
+    end.
+
+  Lemma put_child_snd o : snd (put_child l a b smp o) = match o with Some c => cbs_of c | None => [] end.
+  Proof. destruct o as [c|]; cbn; [|reflexivity]. unfold cbs_of. destruct (s_put_node l a b smp c). reflexivity. Qed.
+
+  Lemma pslots_base_change E1 E E' : forall ch t1, slots (wf l) (pow10 l) t1 ch ->
+    (forall k, (fst k <= l)%nat -> t1 <= snd k -> E1 k = E k) -> pslots E1 E' t1 ch -> pslots E E' t1 ch.
+  Proof.
+    induction ch as [|o ch IH]; intros t1 Hs He Hp; [exact I|].
+    cbn [pslots slots] in *. destruct Hs as [Ho Hr]. destruct Hp as [Hp1 Hp2]. split.
+    - intros k Hk. rewrite (Hp1 k Hk). destruct o as [c|].
+      + destruct Ho as [Ht Hw]. apply (apply_cbs_cong beta l t1).
+        * rewrite <- Ht. apply put_local. exact Hw.
+        * intros k' Hk'. apply He; apply Hk'.
+        * exact Hk.
+      + apply He; apply Hk.
+    - apply IH; [exact Hr| |exact Hp2]. intros k Hk1 Hk. apply He; [exact Hk1|]. pose proof (pow10_pos l). lia.
+  Qed.
+
+  Lemma children_apply : forall ch t0 E, slots (wf l) (pow10 l) t0 ch ->
+    let E' := apply_cbs beta E (child_cbs l a b smp ch) in
+    (forall k, ~ ((fst k <= l)%nat /\ t0 <= snd k < t0 + Z.of_nat (length ch) * pow10 l) -> E' k = E k) /\
+    pslots E E' t0 ch.
+  Proof.
+    induction ch as [|o ch IH]; intros t0 E Hs; cbv zeta.
+    - cbn. split; [reflexivity|exact I].
+    - cbn [slots] in Hs. destruct Hs as [Ho Hr].
+      rewrite child_cbs_cons, apply_cbs_app, put_child_snd.
+      set (E1 := apply_cbs beta E (match o with Some c => cbs_of c | None => [] end)).
+      destruct (IH (t0 + pow10 l) E1 Hr) as [IF IP]. cbv zeta in IF, IP.
+      pose proof (pow10_pos l) as Hp.
+      assert (Hhead : forall k, ~ under k l t0 -> E1 k = E k).
+      { intros k Hk. unfold E1. destruct o as [c|]; [|reflexivity].
+        destruct Ho as [Ht Hw]. apply (apply_cbs_frame beta l t0); [|exact Hk].
+        rewrite <- Ht. apply put_local. exact Hw. }
+      split; [|split].
+      + intros k Hk. rewrite IF.
+        * apply Hhead. unfold under. cbn [length] in Hk. intros [U1 U2]. apply Hk. split; [exact U1|]. nia.
+        * intros [U1 U2]. apply Hk. split; [exact U1|]. cbn [length]. nia.
+      + intros k Hk. rewrite IF.
+        * unfold E1. destruct o; reflexivity.
+        * unfold under in Hk. intros [U1 U2]. lia.
+      + eapply pslots_base_change; [exact Hr| |exact IP].
+        intros k _ Hk. apply Hhead. unfold under. intros [U1 U2]. lia.
+  Qed.
+End Children.
+
+(* ---------- content of a node: its own stored value if present, else that of its children ---------- *)
+Fixpoint content (E : store) (lvl : nat) (n : snode) {struct lvl} : Z :=
+  match n with
+  | SNode t p _ _ ch =>
+      if p then E (lvl, t)
+      else match lvl with
+           | O => 0
+           | S l => sumZ (map (fun o => match o with Some c => content E l c | None => 0 end) ch)
+           end
+  end.
+Definition ocontent (E : store) (l : nat) (o : option snode) : Z :=
+  match o with Some c => content E l c | None => 0 end.
+Definition osum (E : store) (l : nat) (ch : list (option snode)) : Z := sumZ (map (ocontent E l) ch).
+Definition subsum (E : store) (lvl : nat) (n : snode) : Z :=
+  match lvl with O => 0 | S l => osum E l (sn_ch n) end.
+
+Lemma content_unfold E lvl t p s w ch :
+  content E lvl (SNode t p s w ch) = if p then E (lvl, t) else subsum E lvl (SNode t p s w ch).
+Proof. destruct lvl; reflexivity. Qed.
+
+Lemma sumZ_app l1 l2 : sumZ (l1 ++ l2) = sumZ l1 + sumZ l2.
+Proof. unfold sumZ. induction l1 as [|x l1 IH]; cbn [app fold_right]; lia. Qed.
+
+Lemma sumZ_cons x l : sumZ (x :: l) = x + sumZ l.
+Proof. reflexivity. Qed.
+
+Definition clean (E : store) (l : nat) (t : Z) : Prop := forall k, under k l t -> E k = 0.
+
+Fixpoint qslots (Q : snode -> Prop) (C : Z -> Prop) (w t : Z) (ch : list (option snode)) : Prop :=
+  match ch with
+  | [] => True
+  | o :: ch' => match o with Some c => Q c | None => C t end /\ qslots Q C w (t + w) ch'
+  end.
+
+(* no stale values: a non-present node has nothing stored, empty slots have nothing stored below *)
+Fixpoint quiet (E : store) (lvl : nat) (n : snode) {struct lvl} : Prop :=
+  match n with
+  | SNode t p _ _ ch =>
+      (p = false -> E (lvl, t) = 0) /\
+      match lvl with
+      | O => True
+      | S l => qslots (quiet E l) (clean E l) (pow10 l) t ch
+      end
+  end.
+
+(* both depend only on the store below the node *)
+Lemma content_cong : forall lvl n E1 E2, wf lvl n ->
+  (forall k, under k lvl (sn_time n) -> E1 k = E2 k) -> content E1 lvl n = content E2 lvl n.
+Proof.
+  induction lvl as [|l IH]; intros [t p s w ch] E1 E2 Hwf He; cbn [content sn_time] in *.
+  - destruct p; [apply He; apply under_self|reflexivity].
+  - destruct p; [apply He; apply under_self|].
+    destruct Hwf as [_ [Hlen Hs]]. f_equal. apply map_ext_in. intros o Ho.
+    destruct o as [c|]; [|reflexivity].
+    pose proof (slots_In _ _ _ _ _ Hs Ho) as Hwc.
+    pose proof (slots_bounds _ _ (pow10_pos l) _ _ _ Hs Ho) as [Hb1 Hb2]. rewrite Hlen in Hb2.
+    apply IH; [exact Hwc|]. intros k Hk. apply He.
+    eapply under_child; [exact Hk|lia|rewrite pow10_S; lia].
+Qed.
+
+Lemma quiet_cong : forall lvl n E1 E2, wf lvl n ->
+  (forall k, under k lvl (sn_time n) -> E1 k = E2 k) -> quiet E1 lvl n -> quiet E2 lvl n.
+Proof.
+  induction lvl as [|l IH]; intros [t p s w ch] E1 E2 Hwf He Hq; cbn [quiet sn_time] in *.
+  - destruct Hq as [Hq _]. split; [|exact I]. intros Hp. rewrite <- He by apply under_self. auto.
+  - destruct Hq as [Hq Hs]. split; [intros Hp; rewrite <- He by apply under_self; auto|].
+    destruct Hwf as [_ [Hlen Hsl]].
+    assert (G : forall ch0 t0, slots (wf l) (pow10 l) t0 ch0 ->
+              (forall k, (fst k <= l)%nat -> t0 <= snd k < t0 + Z.of_nat (length ch0) * pow10 l -> E1 k = E2 k) ->
+              qslots (quiet E1 l) (clean E1 l) (pow10 l) t0 ch0 -> qslots (quiet E2 l) (clean E2 l) (pow10 l) t0 ch0).
+    { pose proof (pow10_pos l) as Hp.
+      induction ch0 as [|o ch0 IHc]; intros t0 Hs0 He0 Hq0; [exact I|].
+      cbn [qslots slots length] in *. destruct Hs0 as [Ho Hr]. destruct Hq0 as [Hqo Hqr]. split.
+      - destruct o as [c|].
+        + destruct Ho as [Ht Hw]. eapply IH; [exact Hw| |exact Hqo].
+          intros k [K1 K2]. apply He0; [exact K1|]. rewrite Ht in K2. nia.
+        + intros k Hk. rewrite <- He0; [apply Hqo; exact Hk|apply Hk|]. destruct Hk as [K1 K2]. nia.
+      - apply IHc; [exact Hr| |exact Hqr]. intros k K1 K2. apply He0; [exact K1|]. nia. }
+    apply (G ch t Hsl); [|exact Hs].
+    intros k K1 K2. apply He. unfold under. rewrite Hlen in K2. rewrite pow10_S. split; lia.
+Qed.
+
+(* a fresh node in a clean region is quiet and empty *)
+Lemma qslots_repeat_None E l : forall n t0,
+  (forall j, 0 <= j < Z.of_nat n -> clean E l (t0 + j * pow10 l)) ->
+  qslots (quiet E l) (clean E l) (pow10 l) t0 (repeat None n).
+Proof.
+  induction n as [|n IH]; intros t0 H; [exact I|]. cbn [repeat qslots]. split.
+  - replace t0 with (t0 + 0 * pow10 l) by lia. apply H. lia.
+  - apply IH. intros j Hj. replace (t0 + pow10 l + j * pow10 l) with (t0 + (j + 1) * pow10 l) by lia.
+    apply H. lia.
+Qed.
+
+Lemma quiet_new_node E lvl t : clean E lvl t -> quiet E lvl (new_node t lvl).
+Proof.
+  intros Hc. destruct lvl as [|l]; cbn [new_node quiet].
+  - split; [intros _; apply Hc; apply under_self|exact I].
+  - split; [intros _; apply Hc; apply under_self|].
+    apply qslots_repeat_None. intros j Hj k Hk. apply Hc.
+    pose proof (pow10_pos l). eapply under_child; [exact Hk|nia|rewrite pow10_S; nia].
+Qed.
+
+Lemma content_new_node E lvl t : content E lvl (new_node t lvl) = 0.
+Proof. destruct lvl; cbn; reflexivity. Qed.
+
+(* findAddons names exactly the content of a non-present node *)
+Lemma find_addons_content E : forall lvl n, sumZ (map E (find_addons lvl n)) = content E lvl n.
+Proof.
+  induction lvl as [|l IH]; intros [t p s w ch]; cbn [find_addons content].
+  - destruct p; cbn; lia.
+  - destruct p; [cbn; lia|].
+    induction ch as [|o ch IHc]; [reflexivity|]. cbn [flat_map map].
+    rewrite map_app, sumZ_app, IHc, sumZ_cons.
+    destruct o as [c|]; [rewrite IH; reflexivity|reflexivity].
+Qed.
+
+(* ---------- slot counts of a write inside the sub-buckets ---------- *)
+Lemma ov_split t0 w x a b : 0 <= w -> 0 <= x ->
+  ov t0 (t0 + w) a b + ov (t0 + w) (t0 + w + x) a b = ov t0 (t0 + w + x) a b.
+Proof. unfold ov. lia. Qed.
+
+Lemma ov_outside t1 t2 a b : t1 < t2 -> a < b -> is_outside (relationship t1 t2 a b) = true -> ov t1 t2 a b = 0.
+Proof.
+  intros H1 H2 H. pose proof (rel_spec t1 t2 a b H1 H2) as Hr.
+  destruct (relationship t1 t2 a b); try discriminate. unfold ov. lia.
+Qed.
+
+Fixpoint sov (a b beta w t0 : Z) (ch : list (option snode)) : Z :=
+  match ch with
+  | [] => 0
+  | o :: ch' => (match o with Some _ => ov t0 (t0 + w) a b * beta | None => 0 end) + sov a b beta w (t0 + w) ch'
+  end.
+
+Lemma sov_bounds a b beta w : 0 < w -> 0 <= beta -> forall ch t0,
+  0 <= sov a b beta w t0 ch <= ov t0 (t0 + Z.of_nat (length ch) * w) a b * beta.
+Proof.
+  intros Hw Hb. induction ch as [|o ch IH]; intros t0; cbn [sov length].
+  - replace (t0 + Z.of_nat 0 * w) with t0 by lia. unfold ov. nia.
+  - specialize (IH (t0 + w)).
+    pose proof (ov_split t0 w (Z.of_nat (length ch) * w) a b ltac:(lia) ltac:(nia)) as Hsp.
+    replace (t0 + Z.of_nat (S (length ch)) * w) with (t0 + w + Z.of_nat (length ch) * w) by lia.
+    pose proof (ov_nonneg t0 (t0 + w) a b). destruct o; nia.
+Qed.
+
+Lemma sov_fill l base a b beta : a < b -> forall ch i,
+  sov a b beta (pow10 l) (base + i * pow10 l) (fill_children l base a b i ch) =
+  ov (base + i * pow10 l) (base + i * pow10 l + Z.of_nat (length ch) * pow10 l) a b * beta.
+Proof.
+  intros Hab. pose proof (pow10_pos l) as Hp.
+  induction ch as [|o ch IH]; intros i; cbn [fill_children sov length].
+  - replace (base + i * pow10 l + Z.of_nat 0 * pow10 l) with (base + i * pow10 l) by lia. unfold ov. lia.
+  - replace (base + i * pow10 l + pow10 l) with (base + (i + 1) * pow10 l) by lia. rewrite IH.
+    replace (base + (i + 1) * pow10 l) with (base + i * pow10 l + pow10 l) by lia.
+    replace (base + i * pow10 l + Z.of_nat (S (length ch)) * pow10 l)
+      with (base + i * pow10 l + pow10 l + Z.of_nat (length ch) * pow10 l) by lia.
+    set (t1 := base + i * pow10 l). set (L := Z.of_nat (length ch) * pow10 l).
+    assert (HL : 0 <= L) by (unfold L; nia).
+    rewrite <- (ov_split t1 (pow10 l) L a b ltac:(lia) HL).
+    destruct o as [c|]; [ring|].
+    destruct (is_outside _) eqn:Eo; [|ring].
+    assert (Ht12 : t1 < t1 + pow10 l) by lia.
+    rewrite (ov_outside t1 (t1 + pow10 l) a b Ht12 Hab Eo). ring.
+Qed.
+
+Lemma qslots_fill E l base a b : forall ch i,
+  qslots (quiet E l) (clean E l) (pow10 l) (base + i * pow10 l) ch ->
+  qslots (quiet E l) (clean E l) (pow10 l) (base + i * pow10 l) (fill_children l base a b i ch).
+Proof.
+  induction ch as [|o ch IH]; intros i H; [exact I|]. cbn [fill_children qslots] in *.
+  destruct H as [Ho Hr]. split.
+  - destruct o; [exact Ho|]. destruct (is_outside _); [exact Ho|]. apply quiet_new_node. exact Ho.
+  - replace (base + i * pow10 l + pow10 l) with (base + (i + 1) * pow10 l) in * by lia. apply IH. exact Hr.
+Qed.
+
+Lemma osum_fill E l base a b : forall ch i, osum E l (fill_children l base a b i ch) = osum E l ch.
+Proof.
+  unfold osum. induction ch as [|o ch IH]; intros i; [reflexivity|]. cbn [fill_children map].
+  rewrite !sumZ_cons, IH. f_equal. destruct o; [reflexivity|].
+  destruct (is_outside _); [reflexivity|]. cbn [ocontent]. apply content_new_node.
+Qed.
+
+(* ---------- the delta lemma ---------- *)
+Section Delta.
+  Variables (a b : Z) (smp : N) (beta : Z).
+  Hypothesis Hab : a < b.
+  Hypothesis Hbeta : 0 <= beta.
+
+  Definition delta_spec (lvl : nat) (n : snode) (E : store) : Prop :=
+    let n' := fst (s_put_node lvl a b smp n) in
+    let E' := apply_cbs beta E (snd (s_put_node lvl a b smp n)) in
+    let d := ov (sn_time n) (sn_time n + pow10 lvl) a b * beta in
+    quiet E' lvl n' /\
+    content E' lvl n' = content E lvl n + d /\
+    subsum E lvl n <= subsum E' lvl n' <= subsum E lvl n + d /\
+    (creates (relationship (sn_time n) (sn_time n + pow10 lvl) a b) = true ->
+     subsum E' lvl n' = subsum E lvl n + d).
+
+  Lemma children_delta l :
+    (forall c E, wf l c -> quiet E l c -> delta_spec l c E) ->
+    forall ch t0 E E', slots (wf l) (pow10 l) t0 ch ->
+      qslots (quiet E l) (clean E l) (pow10 l) t0 ch -> pslots l a b smp beta E E' t0 ch ->
+      qslots (quiet E' l) (clean E' l) (pow10 l) t0 (map fst (map (put_child l a b smp) ch)) /\
+      osum E' l (map fst (map (put_child l a b smp) ch)) = osum E l ch + sov a b beta (pow10 l) t0 ch.
+  Proof.
+    intros IHl. induction ch as [|o ch IH]; intros t0 E E' Hs Hq Hp.
+    - cbn. split; [exact I|reflexivity].
+    - cbn [slots qslots pslots] in *. destruct Hs as [Ho Hsr]. destruct Hq as [Hqo Hqr]. destruct Hp as [Hpo Hpr].
+      destruct (IH _ _ _ Hsr Hqr Hpr) as [I1 I2]. cbn [map qslots sov]. unfold osum in *. cbn [map]. rewrite !sumZ_cons, I2.
+      destruct o as [c|].
+      + destruct Ho as [Ht Hw]. destruct (IHl c E Hw Hqo) as (D1 & D2 & _).
+        pose proof (put_node_wf l a b smp c Hw) as Hw'. pose proof (put_node_time l a b smp c) as Ht'.
+        cbn [put_child]. fold (cbs_of l a b smp c) in D1, D2.
+        destruct (s_put_node l a b smp c) as [c' cbs] eqn:Ep. cbn [fst snd] in *.
+        assert (Hagree : forall k, under k l (sn_time c') -> apply_cbs beta E (cbs_of l a b smp c) k = E' k).
+        { intros k Hk. symmetry. apply Hpo. rewrite Ht', Ht in Hk. exact Hk. }
+        split.
+        * split; [|exact I1]. eapply quiet_cong; [exact Hw'|exact Hagree|exact D1].
+        * cbn [ocontent]. rewrite <- (content_cong l c' _ _ Hw' Hagree). rewrite D2, Ht. lia.
+      + cbn [put_child fst ocontent]. split; [|lia]. split; [|exact I1].
+        intros k Hk. rewrite (Hpo k Hk). apply Hqo. exact Hk.
+  Qed.
+
+  Lemma put_delta : forall lvl n E, wf lvl n -> quiet E lvl n -> delta_spec lvl n E.
+  Proof.
+    induction lvl as [|l IH]; intros [t p s w ch] E Hwf Hq; unfold delta_spec; cbn [sn_time].
+    - (* level 0 *)
+      rewrite put_node_unfold_0. cbv zeta. change (pow10 0) with 1.
+      pose proof (rel_unit t a b Hab) as Hu. pose proof (rel_spec t (t + 1) a b ltac:(lia) Hab) as Hr.
+      destruct Hwf as [_ Hch]. subst ch. destruct Hq as [Hq0 _].
+      set (r := relationship t (t + 1) a b) in *.
+      pose proof (ov_nonneg t (t + 1) a b) as Hov.
+      destruct (is_outside r) eqn:Eo.
+      { cbn [fst snd apply_cbs fold_left]. rewrite (ov_outside t (t + 1) a b ltac:(lia) Hab Eo).
+        split; [split; [exact Hq0|exact I]|]. split; [lia|]. cbn [subsum]. split; [lia|].
+        destruct r; cbn in Eo |- *; try discriminate. }
+      assert (Hc : covers r = true) by (destruct r; cbn in *; try contradiction; try discriminate; reflexivity).
+      assert (Hcr : creates r = false) by (destruct r; cbn in *; try discriminate; reflexivity).
+      rewrite Hc, Hcr. cbn [orb fst snd].
+      set (cb := {| pc_lvl := 0; pc_t := t; pc_m := ov t (t + 1) a b; pc_d := b - a;
+                    pc_addons := if true && negb p then find_addons 0 (SNode t p s w []) else [] |}).
+      cbn [apply_cbs fold_left].
+      assert (HE : apply_cb beta E cb (0%nat, t) = E (0%nat, t) + ov t (t + 1) a b * beta).
+      { change (0%nat, t) with (pc_key cb). rewrite apply_cb_same. unfold cb. cbn [pc_key pc_lvl pc_t pc_m pc_addons].
+        destruct p; cbn; lia. }
+      rewrite orb_true_r. cbn [quiet content subsum]. rewrite HE.
+      split; [split; [discriminate|exact I]|]. split; [|split; [nia|discriminate]].
+      destruct p; [lia|]. rewrite Hq0 by reflexivity. lia.
+    - (* level S l *)
+      rewrite put_node_S. cbv zeta.
+      pose proof (pow10_pos (S l)) as HpS. pose proof (pow10_pos l) as Hp.
+      pose proof (rel_spec t (t + pow10 (S l)) a b ltac:(lia) Hab) as Hr.
+      destruct Hwf as [Hm [Hlen Hs]]. destruct Hq as [Hq0 Hqs].
+      destruct (is_outside (relationship t (t + pow10 (S l)) a b)) eqn:Eo.
+      { cbn [fst snd apply_cbs fold_left]. rewrite (ov_outside t (t + pow10 (S l)) a b ltac:(lia) Hab Eo).
+        split; [split; assumption|]. split; [lia|]. split; [lia|].
+        destruct (relationship t (t + pow10 (S l)) a b); cbn in Eo |- *; try discriminate. }
+      destruct (ch1_slots l t a b ch Hm Hs) as [Hs1 Hlen1]. rewrite Hlen in Hlen1.
+      set (ch1 := ch1_of l t a b ch) in *.
+      set (r := relationship t (t + pow10 (S l)) a b) in *.
+      set (m := ov t (t + pow10 (S l)) a b) in *.
+      set (fire := covers r || (1 <? count_some ch1)%nat || p).
+      set (addons := if fire && negb p then find_addons (S l) (SNode t p s w ch1) else []).
+      set (own := if fire then [{| pc_lvl := S l; pc_t := t; pc_m := m; pc_d := b - a; pc_addons := addons |}] else []).
+      cbn [fst snd]. rewrite apply_cbs_app. fold (child_cbs l a b smp ch1).
+      set (E1 := apply_cbs beta E own).
+      set (E' := apply_cbs beta E1 (child_cbs l a b smp ch1)).
+      (* pre-state of the children after the create loop *)
+      assert (Hq1 : qslots (quiet E l) (clean E l) (pow10 l) t ch1).
+      { unfold ch1, ch1_of. destruct (creates _); [|exact Hqs].
+        rewrite (trunc_to_aligned _ _ Hm).
+        replace t with (t + 0 * pow10 l) at 1 by lia. replace t with (t + 0 * pow10 l) at 3 by lia.
+        apply qslots_fill. replace (t + 0 * pow10 l) with t by lia. exact Hqs. }
+      assert (Ho1 : osum E l ch1 = osum E l ch).
+      { unfold ch1, ch1_of. destruct (creates _); [apply osum_fill|reflexivity]. }
+      assert (Hsov : creates r = true -> sov a b beta (pow10 l) t ch1 = m * beta).
+      { intros Hc. unfold ch1, ch1_of. fold r. rewrite Hc. rewrite (trunc_to_aligned _ _ Hm).
+        replace t with (t + 0 * pow10 l) at 1 by lia. rewrite sov_fill by exact Hab.
+        rewrite Hlen. unfold m. rewrite pow10_S. f_equal. f_equal; lia. }
+      pose proof (sov_bounds a b beta (pow10 l) Hp Hbeta ch1 t) as Hsb. rewrite Hlen1 in Hsb.
+      replace (t + Z.of_nat 10 * pow10 l) with (t + pow10 (S l)) in Hsb by (rewrite pow10_S; lia). fold m in Hsb.
+      (* E1 differs from E only at the node's own key *)
+      assert (HE1 : forall k, k <> (S l, t) -> E1 k = E k).
+      { intros k Hk. unfold E1, own. destruct fire; [|reflexivity]. cbn [apply_cbs fold_left].
+        apply apply_cb_other. unfold pc_key. cbn [pc_lvl pc_t]. intros Heq. apply Hk. symmetry. exact Heq. }
+      destruct (children_apply l a b smp beta ch1 t E1 Hs1) as [HF HP]. fold E' in HF, HP.
+      assert (HP' : pslots l a b smp beta E E' t ch1).
+      { eapply pslots_base_change; [exact Hs1| |exact HP]. intros k K1 K2. apply HE1. intros ->. cbn in K1. lia. }
+      destruct (children_delta l IH ch1 t E E' Hs1 Hq1 HP') as [C1 C2].
+      (* the node's own key *)
+      assert (Hkey : E' (S l, t) = E1 (S l, t)).
+      { apply HF. cbn [fst]. intros [K1 _]. lia. }
+      assert (Hown : E1 (S l, t) = if fire then E (S l, t) + (m * beta + (if p then 0 else osum E l ch)) else E (S l, t)).
+      { unfold E1, own. destruct fire eqn:Ef; [|reflexivity]. cbn [apply_cbs fold_left].
+        change (S l, t) with (pc_key {| pc_lvl := S l; pc_t := t; pc_m := m; pc_d := b - a; pc_addons := addons |}) at 1.
+        rewrite apply_cb_same. cbn [pc_key pc_lvl pc_t pc_m pc_addons]. f_equal. f_equal.
+        unfold addons. destruct p; cbn [andb negb]; [reflexivity|].
+        rewrite find_addons_content. cbn [content]. fold (ocontent E l). fold (osum E l ch1). exact Ho1. }
+      cbn [subsum sn_ch content quiet]. fold (ocontent E' l). fold (ocontent E l).
+      fold (osum E' l (map fst (map (put_child l a b smp) ch1))). fold (osum E l ch).
+      rewrite C2, Ho1.
+      split; [|split; [|split]].
+      + split; [|exact C1]. intros Hp'. apply orb_false_elim in Hp'. destruct Hp' as [Hp1 Hp2].
+        rewrite Hkey, Hown. fold fire in Hp2. rewrite Hp2. apply Hq0. exact Hp1.
+      + rewrite Hkey, Hown. destruct p; cbn [orb].
+        * unfold fire. rewrite orb_true_r. lia.
+        * destruct fire eqn:Ef.
+          -- rewrite Hq0 by reflexivity. lia.
+          -- unfold fire in Ef. rewrite orb_false_r in Ef. apply orb_false_elim in Ef. destruct Ef as [Ec _].
+             rewrite Hsov; [lia|]. unfold r in *. destruct (relationship t (t + pow10 (S l)) a b); cbn in *; congruence.
+      + lia.
+      + intros Hc. rewrite (Hsov Hc). lia.
+  Qed.
+End Delta.
